@@ -308,10 +308,12 @@ class Stats:
     def reset(self):
         self.sat = self.unsat = self.unknown = 0
         self.solver_time = 0.0
+        self.max_query = 0.0
 
     def as_dict(self):
         return {"sat": self.sat, "unsat": self.unsat, "unknown": self.unknown,
-                "solver_time_s": round(self.solver_time, 3)}
+                "solver_time_s": round(self.solver_time, 3),
+                "max_query_s": round(self.max_query, 3)}
 
 
 class Path:
@@ -362,7 +364,10 @@ class Path:
                 m = self.solver.model() if r == z3.sat else None
         finally:
             self.solver.pop()
-            self.stats.solver_time += time.time() - t0
+            dt = time.time() - t0
+            self.stats.solver_time += dt
+            if dt > self.stats.max_query:
+                self.stats.max_query = dt
         if r == z3.sat:
             self.stats.sat += 1
         elif r == z3.unsat:
